@@ -23,6 +23,17 @@ func equiv(a, b ssa.Value, depth int) bool {
 	if a == nil || b == nil || depth > 8 {
 		return false
 	}
+	// a conversion between slice types with the same underlying type hands on the same slice
+	if ct, ok := a.(*ssa.ChangeType); ok {
+		if _, isSl := ct.Type().Underlying().(*types.Slice); isSl {
+			return equiv(ct.X, b, depth+1)
+		}
+	}
+	if ct, ok := b.(*ssa.ChangeType); ok {
+		if _, isSl := ct.Type().Underlying().(*types.Slice); isSl {
+			return equiv(a, ct.X, depth+1)
+		}
+	}
 	switch x := a.(type) {
 	case *ssa.Const:
 		y, ok := b.(*ssa.Const)
